@@ -36,7 +36,7 @@ var modelledSubject = []string{"appendAssign", "appendCombine", "exitAfterDefer"
 
 var witnessNS = map[string]bool{"ns_append_pkgfunc_same": true, "ns_new_pkgfunc_same": true, "ns_sort_local": true, "ns_filepath_alias": true, "ns_flag_pkgvar": true, "ns_cast_pkgfunc": true, "ns_nil_local": true, "ns_exit_local": true}
 
-const tieHeader = "From GC Require Import Base GoAst Model_Checkers Model_Checkers2.\nOpen Scope string_scope.\nOpen Scope N_scope.\n\n"
+const tieHeader = "From GC Require Import Base GoAst Model_Checkers Model_Checkers2 Model_Walkers.\nOpen Scope string_scope.\nOpen Scope N_scope.\n\n"
 
 func obsTerm(o ModelObs) string {
 	if o.Panic {
@@ -110,6 +110,19 @@ func writeTie(s *Shared, dir string, all []*Pkg, obs []*FileRun, starts map[*Fil
 		byKey[o.Pkg+"/"+o.File] = o
 	}
 	var c01, c07, c20 []tieCase
+	// the real walkers under recording visitors (S1 and S2 files)
+	var recPkgs []*Pkg
+	for _, p := range all {
+		if p.Stream == "S1" || p.Stream == "S2" {
+			recPkgs = append(recPkgs, p)
+		}
+	}
+	walks, werr := RecordWalks(dir, recPkgs)
+	if werr != nil {
+		s.TieBroken = append(s.TieBroken, werr.Error())
+	}
+	codes := kindCodes()
+	walkFiles, walkEvents, walkPanics := 0, 0, 0
 	nodesTotal := 0
 	panics := 0
 	warnTotal := 0
@@ -141,8 +154,22 @@ func writeTie(s *Shared, dir string, all []*Pkg, obs []*FileRun, starts map[*Fil
 				warnTotal += len(o.Offs)
 				items = append(items, fmt.Sprintf("(%s, %s)", coqfmt.Str(name), obsTerm(o)))
 			}
-			tc := tieCase{desc: p.Name + "/" + f.Name + " " + p.Origin, nodes: n, file: term,
-				term: fmt.Sprintf("case_detail2 @FILE@ [%s]", strings.Join(items, "; "))}
+			detail := fmt.Sprintf("case_detail2 @FILE@ [%s]", strings.Join(items, "; "))
+			if wo := walks[p.Name+"/"+f.Name]; wo != nil {
+				if wo.Err != "" {
+					s.TieBroken = append(s.TieBroken, fmt.Sprintf("walker recorder could not parse %s/%s: %s", p.Name, f.Name, wo.Err))
+				} else {
+					wt, ev, unknown := walkTerm(wo, codes)
+					for _, u := range unknown {
+						s.TieBroken = append(s.TieBroken, fmt.Sprintf("walker recorder: node kind %s shown on %s/%s is unknown to the converter", u, p.Name, f.Name))
+					}
+					walkFiles++
+					walkEvents += ev
+					walkPanics += len(wo.Panic)
+					detail = fmt.Sprintf("(%s ++ walk_detail @FILE@ %s)%%list", detail, wt)
+				}
+			}
+			tc := tieCase{desc: p.Name + "/" + f.Name + " " + p.Origin, nodes: n, file: term, term: detail}
 			switch p.Stream {
 			case "S1":
 				c07 = append(c07, tc)
@@ -191,4 +218,5 @@ func writeTie(s *Shared, dir string, all []*Pkg, obs []*FileRun, starts map[*Fil
 	s.TieStats["observed_panics_of_modelled_checkers"] = panics
 	s.TieStats["observed_warnings_of_modelled_checkers"] = warnTotal
 	s.TieStats["modelled_checkers"] = ModelledCheckers
+	s.TieStats["walker_tie"] = map[string]interface{}{"walkers": WalkerNames, "files": walkFiles, "shown_nodes_compared": walkEvents, "recorded_panics": walkPanics, "skip_policies": 2}
 }
